@@ -93,18 +93,53 @@ def check_str(b, ctx):
         raise Violation(dict(kind='bytes', hex=b.hex()), 'codec probe disagrees: %r vs value %d minimal %r' % (s, want, R.num_minimal(b)), observed=s)
 
 
+# tokens that may precede an integer literal in the same script: each with the push it assembles to
+CONTEXT = [('OP_DUP', '76'), ('0x00', '0100'), ('9223372036854775807', '08ffffffffffffff7f'), ('-9223372036854775807', '08ffffffffffffffff'),
+           ('11111111111111111111', '0a11111111111111111111'), ('99999999999999999999', '0a99999999999999999999'),
+           ('18446744073709551616', '0a18446744073709551616'), ('1' * 64, '20' + '11' * 32), ('0x' + '9' * 40, '14' + '99' * 20), ('ffffffffffffffffffff', '0a' + 'ff' * 10)]
+
+
+def push_of(n):
+    if n == 0:
+        return '00'
+    if n == -1 or 1 <= n <= 16:
+        return '%02x' % (0x50 + n)
+    e = enc_hex(n)
+    return '%02x' % (len(e) // 2) + e
+
+
+def check_ctx(k, n, ctx):
+    """an integer literal keeps its meaning whatever token was read before it in the same script (one bracketed script and separate arguments)"""
+    h = harness()
+    tok, enc = CONTEXT[k]
+    ctx.case('c%d:%d' % (k, n), True, dict(kind='in-context', before=tok, n=n), 'in-context')
+    want = enc + push_of(n)
+    for argv in ([tok, str(n)], ['[%s %d]' % (tok, n)]):
+        g = h.req(kvline('asm', args=','.join(a.encode().hex() for a in argv)))
+        w = want if len(argv) == 2 else push_of_bytes(want)
+        if g.get('hex') != w:
+            raise Violation(dict(kind='in-context', before=tok, n=n), 'the integer literal %d after the token %s assembles to %r, the codec says %s' % (n, tok, g.get('hex', g), w), observed=g, expected=w)
+
+
+def push_of_bytes(hx):
+    n = len(hx) // 2
+    return ('%02x' % n if n < 76 else '4c%02x' % n) + hx
+
+
 def check_any(case, ctx):
     if case[0] == 'i':
         check_int(case[1], ctx)
+    elif case[0] == 'c':
+        check_ctx(case[1], case[2], ctx)
     else:
         check_str(case[1], ctx)
 
 
-cases = st.one_of(st.tuples(st.just('i'), ints), st.tuples(st.just('s'), strings4))
+cases = st.one_of(st.tuples(st.just('i'), ints), st.tuples(st.just('s'), strings4), st.tuples(st.just('c'), st.integers(0, len(CONTEXT) - 1), ints))
 
 
 def w_conv(ctx, wid, seed, examples):
-    core.hyp_campaign(ctx, 'conversions', cases, check_any, examples, seed, lambda c: dict(kind=c[0], value=c[1].hex() if c[0] == 's' else c[1]))
+    core.hyp_campaign(ctx, 'conversions', cases, check_any, examples, seed, lambda c: dict(kind=c[0], value=c[1].hex() if c[0] == 's' else c[1], n=c[2] if c[0] == 'c' else None))
 
 
 def run(tier, t0):
@@ -151,7 +186,12 @@ def replay(rec):
         n = -(n // 2) - 1 if n & 1 else n // 2
         s = h.req(kvline('scriptnum', bytes=b'', int=n))
         return s.get('enc') == enc_hex(n), 'int %d: tree encodes %r, reference %s' % (n, s.get('enc'), enc_hex(n))
-    case = ('s', bytes.fromhex(c['value'])) if c['kind'] == 's' else ('i', c['value'])
+    if c['kind'] in ('c', 'in-context'):
+        case = ('c', c['value'] if c['kind'] == 'c' else [t for t, _ in CONTEXT].index(c['before']), c['n'])
+    elif c['kind'] in ('s', 'bytes'):
+        case = ('s', bytes.fromhex(c['value'] if c['kind'] == 's' else c['hex']))
+    else:
+        case = ('i', c['value'] if c['kind'] == 'i' else c['n'])
     try:
         check_any(case, core.Ctx(PID))
     except Violation as v:
